@@ -604,14 +604,15 @@ func c03(c *Ctx) {
 		good, n := true, 0
 		for _, x := range g.Nodes {
 			rs, ok := x.N.(*ast.ReturnStmt)
-			if !ok || len(rs.Results) != 1 {
+			if !ok {
 				continue
 			}
-			if cl, ok := unparen(rs.Results[0]).(*ast.CompositeLit); ok && len(cl.Elts) == 0 {
-				continue // zero SpanContext
+			val, acc, known := ctxReturn(pinfo, rs)
+			if !known || !acc {
+				continue // zero SpanContext / rejected
 			}
 			n++
-			v := objOf(pinfo, rs.Results[0])
+			v := objOf(pinfo, val)
 			d, _ := g.DominatedByEdges(x, func(e *GEdge) bool {
 				return edgeImplies(e, func(cnd ast.Expr, pol int) bool {
 					call, ok := cnd.(*ast.CallExpr)
@@ -670,7 +671,7 @@ func c03(c *Ctx) {
 				return true
 			})
 		}
-		c.Check(good && n >= 3, "R4", "trace|ParseTraceState|every error return carries TraceState{}", at(tx.M, fn.Pos()), itoa(n)+" error returns, all zero-valued", "a partially parsed tracestate is returned together with an error (and would be used by extract)")
+		c.Check(good && n >= 1, "R4", "trace|ParseTraceState|every error return carries TraceState{}", at(tx.M, fn.Pos()), itoa(n)+" error returns, all zero-valued", "a partially parsed tracestate is returned together with an error (and would be used by extract)")
 	}
 
 	c.Rule("R5", "E4 + E2", "flags masked with FlagsSampled in Inject and extract; Inject writes nothing for an invalid context; version is 00 and the version gates are as specified", 5)
@@ -804,8 +805,8 @@ func c03(c *Ctx) {
 				seen := g.ReachUnder(env)
 				nonzero := false
 				for x := range seen {
-					if rs, ok := x.N.(*ast.ReturnStmt); ok && len(rs.Results) == 1 {
-						if _, isLit := unparen(rs.Results[0]).(*ast.CompositeLit); !isLit {
+					if rs, ok := x.N.(*ast.ReturnStmt); ok {
+						if _, acc, known := ctxReturn(pinfo, rs); known && acc {
 							nonzero = true
 						}
 					}
@@ -843,8 +844,8 @@ func c03(c *Ctx) {
 			}
 			seen := g.ReachUnder(env)
 			for x := range seen {
-				if rs, ok := x.N.(*ast.ReturnStmt); ok && len(rs.Results) == 1 {
-					if _, isLit := unparen(rs.Results[0]).(*ast.CompositeLit); !isLit {
+				if rs, ok := x.N.(*ast.ReturnStmt); ok {
+					if _, acc, known := ctxReturn(pinfo, rs); known && acc {
 						v0 = false
 					}
 				}
@@ -1229,4 +1230,23 @@ func idHelperValid(ix *PkgIndex, fn, h *FuncInfo, call *ast.CallExpr, id types.O
 		}
 	}
 	return nNil > 0, ""
+}
+
+// ctxReturn: a return of extract seen as (value, accepted?): the historical single-result form returns the zero SpanContext
+// literal to reject; the (SpanContext, bool) form says so in its second result. known=false for any other shape.
+func ctxReturn(info *types.Info, rs *ast.ReturnStmt) (val ast.Expr, accepted, known bool) {
+	switch len(rs.Results) {
+	case 1:
+		if cl, ok := unparen(rs.Results[0]).(*ast.CompositeLit); ok && len(cl.Elts) == 0 {
+			return rs.Results[0], false, true
+		}
+		return rs.Results[0], true, true
+	case 2:
+		tv, has := info.Types[rs.Results[1]]
+		if !has || tv.Value == nil || tv.Value.Kind() != constant.Bool {
+			return rs.Results[0], true, true // a computed flag: treated as possibly accepted
+		}
+		return rs.Results[0], constant.BoolVal(tv.Value), true
+	}
+	return nil, false, false
 }
